@@ -176,7 +176,8 @@ let proj_table (s : st) (kind : string) (args : int list) : (pstep list * char *
   let is_c = has_prefix && kind.[0] = 'c' in
   let kind = if has_prefix then String.sub kind 2 (String.length kind - 2) else kind in
   let const_ok = List.mem kind [ "member_a"; "member_b"; "member_c"; "reint_R"; "reint_Q"; "reint_I"; "reintn_I"; "reintn_D";
-                                 "reintn_R"; "tval"; "reint_C"; "reint_D"; "member_re"; "member_im"; "up_Q" ] in
+                                 "reintn_R"; "tval"; "reint_C"; "reint_D"; "member_re"; "member_im"; "up_Q";
+                                 "static"; "asconst"; "constcast" ] in
   if s.tk <> TNone || (is_c && not const_ok) then None
   else
     match (s.elem, kind) with
@@ -218,7 +219,7 @@ let run_psteps ?(constref = false) (x : pview) (steps : pstep list) : pview opti
       | None -> None
       | Some x -> (
           match stp with
-          | Pj p -> if p_dom_proj p x && p_dom_proj_based constref p x then Some (p_exec_proj p x) else None
+          | Pj p -> if p_dom_proj constref p x then Some (p_exec_proj p x) else None
           | Po o -> if p_dom_op o x then Some (p_exec_op o x) else None))
     (Some x) steps
 
@@ -770,9 +771,12 @@ let gen_case (id : string) (maxrank : int) (maxpre : int) (maxpost : int)
   let tag t = tags := t :: !tags in
   let emit line = pr prog line; step s obs line in
   emit ("case " ^ id);
-  let rebased = chance 45 in
+  let rebased = chance 55 in
   let exts = root_sizes maxrank rebased in
   let rebased = List.exists (fun (f, _) -> f <> 0) exts in
+  (* reindexed / blocked / reindexed(i,j,..) are in the operation alphabet of every case with a re-based root and of
+     a third of the others *)
+  let reb_ops = rebased || chance 33 in
   let el = if chance 27 then "Z" else "S" in
   emit (Printf.sprintf "root %s %d %s" el (List.length exts) (join " " (fun (f, l) -> Printf.sprintf "%d %d" f l) exts));
   tag ("root" ^ el);
@@ -793,7 +797,7 @@ let gen_case (id : string) (maxrank : int) (maxpre : int) (maxpost : int)
       let rec try_op k =
         if k = 0 then None
         else
-          match candidate ~rebased s.x.p_view with
+          match candidate ~rebased:reb_ops s.x.p_view with
           | Some o
             when p_dom_op o s.x && op_supported s o
                  && (let r' = rank (p_exec_op o s.x).p_view in r' >= 1 && r' <= limit_rank) -> Some o
@@ -831,6 +835,11 @@ let gen_case (id : string) (maxrank : int) (maxpre : int) (maxpost : int)
       | None -> ()
       | Some kind ->
           let src_rank = rank s.x.p_view in
+          (* index bases of the SOURCE view (dimensions with at least one index): any negative / only positive / all zero,
+             and whether the leading one is non-zero *)
+          let src_firsts = List.filter_map (fun (f, l) -> if i l > i f then Some (i f) else None) (l_extensions s.x.p_view.lay) in
+          let src_base = if List.exists (fun f -> f < 0) src_firsts then "neg" else if List.exists (fun f -> f > 0) src_firsts then "pos" else "zero" in
+          let src_lead = match l_extensions s.x.p_view.lay with (f, l) :: _ when i l > i f && i f <> 0 -> "leadnz" | _ -> "lead0" in
           emit ("proj " ^ kind);
           incr did;
           let name = List.hd (words kind) in
@@ -840,6 +849,7 @@ let gen_case (id : string) (maxrank : int) (maxpre : int) (maxpost : int)
           tag ("proj:" ^ bare);
           (* (projection kind x value category x rank class of the SOURCE view) table of the evidence *)
           tag (Printf.sprintf "vc:%s:%s:%s" bare cat (if src_rank = 1 then "D1" else "Dn"));
+          tag (Printf.sprintf "srcbase:%s:%s:%s:%s:%s" bare cat (if src_rank = 1 then "D1" else "Dn") src_base src_lead);
           List.iter (fun idx -> emit ("probe " ^ join " " string_of_int idx)) (gen_probes s.x.p_view);
           if rebased then tag ("proj-on-based:" ^ bare);
           if List.exists (fun (f, _) -> i f <> 0) (l_extensions s.x.p_view.lay) then tag ("proj-view-has-nonzero-base:" ^ bare);
